@@ -115,3 +115,7 @@ PROPERTY = Property(
          "team/player permutations (1e-12), two teams: widening the gap never raises it, n teams: equalising all totals never lowers it (16 ulp); distinct by SHA-1",
     assumptions=["equalised games whose shifted member would leave [-20 beta, 20 beta] are excluded (counted)"],
 )
+
+from vf import opt as _opt  # noqa: E402
+
+PROPERTY.clauses.append(_opt.optimised("C10", next(c for c in PROPERTY.clauses if c.name == "range-symmetry-peak"), quick=64, thorough=640))
